@@ -172,7 +172,19 @@ class PureFockState(State):
 
         indices = fock_to_binary_indices(self.d)
 
-        state_vector_in_binary_ordering = self._state_vector[indices]
+        # NOTE: The state vector only contains the particle number sectors below the
+        # cutoff, the amplitudes of the remaining sectors are zero.
+        padded_state_vector = connector.np.concatenate(
+            [
+                self._state_vector,
+                connector.np.zeros(
+                    len(indices) - len(self._state_vector),
+                    dtype=self._state_vector.dtype,
+                ),
+            ]
+        )
+
+        state_vector_in_binary_ordering = padded_state_vector[indices]
 
         # TODO: This algorithm can be made much more efficient by avoiding using the
         # Fock space representation of the Majorana operators.
